@@ -43,7 +43,14 @@ type writeEff struct {
 	what  string
 }
 
+type fvWrite struct {
+	idx  int
+	name string
+	what string
+}
+
 type fnSummary struct {
+	fvWrites     []fvWrite // writes through captured variables: translated at the place the closure is made and called
 	writes       []writeEff
 	globals      []string
 	unknown      []string
@@ -310,7 +317,7 @@ func (ea *effAnalysis) summary(f *ssa.Function) *fnSummary {
 			case rkParam:
 				s.writes = append(s.writes, writeEff{param: r.idx, keys: r.keys, what: what})
 			case rkFreeVar:
-				s.unknown = append(s.unknown, "writes captured variable "+r.name+" ("+what+")")
+				s.fvWrites = append(s.fvWrites, fvWrite{r.idx, r.name, what})
 			case rkGlobal:
 				s.globals = append(s.globals, r.name+" ("+what+")")
 			case rkUnknown:
@@ -431,6 +438,21 @@ func (ea *effAnalysis) callEffects(s *fnSummary, f *ssa.Function, ci ssa.CallIns
 		for _, u := range cs.unknown {
 			s.unknown = append(s.unknown, cal.Name()+": "+u)
 		}
+		// writes through captured variables: where the closure is made right here, the variable is one of this
+		// function's own; what the write can reach is what was stored into it
+		if len(cs.fvWrites) > 0 {
+			mc, direct := com.Value.(*ssa.MakeClosure)
+			if direct && mc.Fn != ssa.Value(cal) {
+				direct = false
+			}
+			for _, fw := range cs.fvWrites {
+				if !direct || fw.idx >= len(mc.Bindings) {
+					s.unknown = append(s.unknown, cal.Name()+": writes captured variable "+fw.name+" ("+fw.what+")")
+					continue
+				}
+				addWrite(ea.capturedRoots(mc.Bindings[fw.idx]), cal.Name()+" -> "+fw.what)
+			}
+		}
 		actual := func(p int) ssa.Value {
 			if com.IsInvoke() {
 				if p == 0 {
@@ -465,4 +487,20 @@ func (ea *effAnalysis) callEffects(s *fnSummary, f *ssa.Function, ci ssa.CallIns
 			addWrite(rs, cal.Name()+" -> "+w.what)
 		}
 	}
+}
+
+// capturedRoots: what a write through the captured variable b (the address of one of the maker's variables) can
+// reach: the variable itself (local) and whatever was stored into it.
+func (ea *effAnalysis) capturedRoots(b ssa.Value) []root {
+	a, ok := b.(*ssa.Alloc)
+	if !ok {
+		return ea.roots(b, map[ssa.Value]bool{})
+	}
+	out := []root{{kind: rkFresh}}
+	for _, r := range *a.Referrers() {
+		if st, ok := r.(*ssa.Store); ok && st.Addr == ssa.Value(a) && pointerLike(st.Val.Type()) {
+			out = append(out, ea.roots(st.Val, map[ssa.Value]bool{})...)
+		}
+	}
+	return out
 }
